@@ -42,6 +42,8 @@ var osRedirects = map[string]string{
 	"(*os.File).ReadDir":       "VFileReadDir",
 	"(*os.File).Readdirnames":  "VFileReaddirnames",
 	"(*os.File).Readdir":       "VFileReaddir",
+	"(*os.File).ReadFrom":      "VFileReadFrom",
+	"(*os.File).WriteTo":       "VFileWriteTo",
 }
 
 func registerOS(eng *Engine) {
